@@ -445,7 +445,7 @@ def _with_mix(pid, orig):
     idx = int(pid[1:])
 
     def wl(tier, seed):
-        cnt, nops = (4, 220) if tier == "quick" else (40, 600)
+        cnt, nops = (4, 220) if tier == "quick" else (20, 400)
         mix = [gen.gen_mix(seed * 100000 + idx * 1000 + i, idbase=(1500 + i) * IDSTEP, nops=nops, name="mix_%d" % i) for i in range(cnt)]
         return orig(tier, seed) + [("mix", mix, dict(per_tlc=1 if tier == "quick" else 5, tlc_jobs=4 if tier == "quick" else 8, max_slots=300))]
     return wl
